@@ -5,6 +5,7 @@ package main
 
 import (
 	"encoding/binary"
+	"math"
 
 	"github.com/pion/rtcp"
 )
@@ -195,3 +196,96 @@ func genVariantOp(r *Rng) string {
 }
 
 var _ = rtcp.Header{}
+
+// genDecvOp: an RFC-valid encoding built by hand together with the field values the specification assigns
+// (`decv.K <hex> | <expected body tokens>`); judged by the C04 oracle, compared with the model as a plain dec.
+func genDecvOp(r *Rng) string {
+	switch r.Intn(5) {
+	case 0: // REMB with any mantissa/exponent pair: bitrate is exactly mantissa * 2^exp
+		exp, mant, nss := r.Intn(64), int(r.Bits(18, 18)), r.Len(3, 0)
+		if mant == 0 {
+			mant = 1 + r.Intn(0x3FFFF)
+		}
+		b := rembWire(r, exp, mant, nss)
+		v := &rtcp.ReceiverEstimatedMaximumBitrate{SenderSSRC: binary.BigEndian.Uint32(b[4:]), Bitrate: float32(math.Ldexp(float64(mant), exp))}
+		for i := 0; i < nss; i++ {
+			v.SSRCs = append(v.SSRCs, binary.BigEndian.Uint32(b[20+4*i:]))
+		}
+		return "decv.REMB " + hx(b) + " | " + bodyTokens(v)
+	case 1: // APP with RFC 3550 padding
+		v := &rtcp.ApplicationDefined{SubType: uint8(r.Bits(5, 5)), SSRC: uint32(r.U64()), Name: string(r.Bytes(4)), Data: r.Bytes(4 * r.Len(4))}
+		pad := 4 * r.Intn(3)
+		b := hdrBytes(pad > 0, int(v.SubType), 204, 0)
+		b = binary.BigEndian.AppendUint32(b, v.SSRC)
+		b = append(b, v.Name...)
+		b = append(b, v.Data...)
+		for i := 0; i < pad; i++ {
+			if i == pad-1 {
+				b = append(b, byte(pad))
+			} else {
+				b = append(b, 0)
+			}
+		}
+		if len(v.Data) == 0 {
+			v.Data = []byte{}
+		}
+		return "decv.APP " + hx(finish(b)) + " | " + bodyTokens(v)
+	case 2: // FIR whose reserved octets are not zero
+		v := &rtcp.FullIntraRequest{SenderSSRC: uint32(r.U64()), MediaSSRC: uint32(r.U64())}
+		b := hdrBytes(false, 4, 206, 0)
+		b = binary.BigEndian.AppendUint32(b, v.SenderSSRC)
+		b = binary.BigEndian.AppendUint32(b, v.MediaSSRC)
+		for n := 1 + r.Len(3); n > 0; n-- {
+			e := rtcp.FIREntry{SSRC: uint32(r.U64()), SequenceNumber: uint8(r.U64())}
+			v.FIR = append(v.FIR, e)
+			b = binary.BigEndian.AppendUint32(b, e.SSRC)
+			b = append(b, e.SequenceNumber, byte(r.U64()), byte(r.U64()), byte(r.U64()))
+		}
+		return "decv.FIR " + hx(finish(b)) + " | " + bodyTokens(v)
+	case 3: // BYE without reason / with a reason
+		v := &rtcp.Goodbye{}
+		ns := r.Len(3, 0, 31)
+		b := hdrBytes(false, ns, 203, 0)
+		for i := 0; i < ns; i++ {
+			s := uint32(r.U64())
+			v.Sources = append(v.Sources, s)
+			b = binary.BigEndian.AppendUint32(b, s)
+		}
+		if r.Bool() {
+			t := 1 + r.Len(6, 254)
+			txt := r.Bytes(t)
+			v.Reason = string(txt)
+			b = append(b, byte(t))
+			b = append(b, txt...)
+			for len(b)%4 != 0 {
+				b = append(b, 0)
+			}
+		}
+		return "decv.BYE " + hx(finish(b)) + " | " + bodyTokens(v)
+	default: // NACK / PLI / RRR built field by field
+		s, m := uint32(r.U64()), uint32(r.U64())
+		switch r.Intn(3) {
+		case 0:
+			b := hdrBytes(false, 1, 206, 0)
+			b = binary.BigEndian.AppendUint32(b, s)
+			b = binary.BigEndian.AppendUint32(b, m)
+			return "decv.PLI " + hx(finish(b)) + " | " + bodyTokens(&rtcp.PictureLossIndication{SenderSSRC: s, MediaSSRC: m})
+		case 1:
+			b := hdrBytes(false, 5, 205, 0)
+			b = binary.BigEndian.AppendUint32(b, s)
+			b = binary.BigEndian.AppendUint32(b, m)
+			return "decv.RRR " + hx(finish(b)) + " | " + bodyTokens(&rtcp.RapidResynchronizationRequest{SenderSSRC: s, MediaSSRC: m})
+		}
+		v := &rtcp.TransportLayerNack{SenderSSRC: s, MediaSSRC: m}
+		b := hdrBytes(false, 1, 205, 0)
+		b = binary.BigEndian.AppendUint32(b, s)
+		b = binary.BigEndian.AppendUint32(b, m)
+		for n := 1 + r.Len(3); n > 0; n-- {
+			p := rtcp.NackPair{PacketID: uint16(r.U64()), LostPackets: rtcp.PacketBitmap(r.U64())}
+			v.Nacks = append(v.Nacks, p)
+			b = binary.BigEndian.AppendUint16(b, p.PacketID)
+			b = binary.BigEndian.AppendUint16(b, uint16(p.LostPackets))
+		}
+		return "decv.NACK " + hx(finish(b)) + " | " + bodyTokens(v)
+	}
+}
